@@ -86,18 +86,26 @@ func c08bid(withAuditors bool) {
 		for i := 0; i < nown; i++ {
 			own = append(own, c08attr("own"))
 		}
-		if err := e.pk.Create(e.ctx, ptypes.Provider{Owner: addr(1), HostURI: "h", Attributes: own}); err != nil {
-			panic(err)
-		}
 	}
 	bidder, orderNo, pd, dd := 1, 1, denom, denom
+	spelling := addr(1)
 	if !withAuditors { // the non-attribute admission rules are explored in the self-declared variant
 		bidder = []int{1, 0}[verif_Choice("bidder-is-tenant", 2)]
 		orderNo = 1 + verif_Choice("order-exists", 2)
 		pd, dd = c08denoms[verif_Choice("price-denom", 2)], c08denoms[verif_Choice("deposit-denom", 2)]
+		spelling = addr(bidder)
+		if verif_Choice("provider-spelled-in-uppercase", 2) == 1 {
+			spelling = verif_AddrUpper(bidder) // bech32 text is also valid in all-uppercase; same account
+		}
+	}
+	if registered {
+		// the bidding account is a registered provider (a tenant may be one too)
+		if err := e.pk.Create(e.ctx, ptypes.Provider{Owner: addr(bidder), HostURI: "h", Attributes: own}); err != nil {
+			panic(err)
+		}
 	}
 	price, deposit := amount("msg-price"), amount("msg-deposit")
-	m := &mtypes.MsgCreateBid{Order: oid(1, orderNo), Provider: addr(bidder), Price: sdk.Coin{Denom: pd, Amount: price}, Deposit: sdk.Coin{Denom: dd, Amount: deposit}}
+	m := &mtypes.MsgCreateBid{Order: oid(1, orderNo), Provider: spelling, Price: sdk.Coin{Denom: pd, Amount: price}, Deposit: sdk.Coin{Denom: dd, Amount: deposit}}
 	err := func() (err error) {
 		defer func() {
 			if r := recover(); r != nil {
